@@ -346,7 +346,9 @@ fn parse_arg0(arg0: &str, options: &mut Vec<(ShellOption, State)>) {
     if arg0.starts_with('-') {
         options.push((ShellOption::Login, State::On));
     }
-    if arg0.rsplit('/').next().unwrap_or("") == "sh" {
+    // The leading hyphen marking a login shell is not part of the name.
+    let name = arg0.strip_prefix('-').unwrap_or(arg0);
+    if name.rsplit('/').next().unwrap_or("") == "sh" {
         options.push((ShellOption::PosixlyCorrect, State::On));
     }
 }
